@@ -32,6 +32,10 @@ func (s *IndexStorage) SetIndex(idx *index.Index) (err error) {
 		if statErr == nil {
 			cp := copyIndex(idx)
 			cp.ModTime = fi.ModTime()
+			// The encoder writes no extensions: cache what a decode of
+			// the file just written yields, not the caller's (by now
+			// stale) cache tree, resolve-undo and end-of-index data.
+			cp.Cache, cp.ResolveUndo, cp.EndOfIndexEntry = nil, nil, nil
 			s.cache.Set(cp, fi.ModTime(), fi.Size())
 		} else {
 			s.cache.Clear()
